@@ -37,7 +37,9 @@ fn row<JT: Jet + Clone + PartialEq>(fam: &str, j: &JT, with_roots: bool) -> J {
         "src_width": s.to_bit_width(), "tgt_width": t.to_bit_width(),
         "src_final_width": s.to_final().bit_width(), "tgt_final_width": t.to_final().bit_width(),
         "src_tmr": s.to_final().tmr().to_string(), "tgt_tmr": t.to_final().tmr().to_string(),
-        "src_tmr_name": s.tmr().to_string(), "tgt_tmr_name": t.tmr().to_string()});
+        "src_tmr_name": s.tmr().to_string(), "tgt_tmr_name": t.tmr().to_string(),
+        // the types themselves (compressed), for the spec decoder's jet table (Codec.tla JetRows)
+        "src_ty": crate::prog::ty_cz(&s.to_final()), "tgt_ty": crate::prog::ty_cz(&t.to_final())});
     if with_roots {
         r["cmr"] = json!(j.cmr().to_string());
         r["cost"] = json!(j.cost().to_string().parse::<u64>().unwrap_or(u64::MAX));
